@@ -140,6 +140,18 @@ def outline_state(ctx):
         cn_ = [n for n, cc in W.calls(("self.change", "framer.change", "self.framer.change", "main.framer.change")) if cc is c]
         at = cn_[0] if cn_ else None
         args = tuple(src(W.sym(bound[p], at)) if at is not None and p in bound else src(bound.get(p)) for p in pnames)
+        if at is not None:
+            # a name that was just stored into an attribute of self stands for that attribute (`self.active = active;
+            # self.change(active.outline, ..)`): same object unless the name is rebound in between
+            al = {}
+            for sn in W.cfg.nodes:
+                if isinstance(sn.ast, ast.Assign) and len(sn.ast.targets) == 1 and isinstance(sn.ast.targets[0], ast.Attribute) and \
+                        dotted(sn.ast.targets[0].value) == "self" and isinstance(sn.ast.value, ast.Name) and W.dominated([at], [sn]):
+                    x = sn.ast.value.id
+                    redefs = [d for d in W._def_nodes(x) if d in W.cfg.reachable(sn.id) and at.id in W.cfg.reachable(d) and d != sn.id]
+                    if not redefs:
+                        al[x] = "self." + sn.ast.targets[0].attr
+            args = tuple((al[a.split(".")[0]] + a[len(a.split(".")[0]):]) if a.split(".")[0] in al else a for a in args)
         if q.startswith(FR + "Framer.") and args == ("self.active.outline", "self.active.human"):
             ok = dotted(c.func.value) == "self"        # the full outline of the active frame, from any Framer method (reactivate or inlined)
         elif q == "ioflo/base/acting.py:Suspender.action":
@@ -153,7 +165,8 @@ def outline_state(ctx):
     A = FuncView(ctx, act)
     st = A.need(A.stores("self.active"), "self.active = ... in activate")
     ra = A.call_nodes("self.reactivate") or \
-        [n for n, c in A.calls("self.change") if [src(a) for a in c.args] == ["self.active.outline", "self.active.human"]]
+        [n for n, c in A.calls("self.change") if [src(a) for a in c.args] in (["self.active.outline", "self.active.human"],
+                                                                               ["active.outline", "active.human"])]
     A.need(ra, "self.reactivate() (or its body) in activate")
     ctx.check(A.dominated(ra, st) and A.always_then([A.cfg.entry], ra) and
               isinstance(st[0].ast, ast.Assign) and dotted(st[0].ast.value) == "active",
@@ -208,18 +221,47 @@ def _trace_shape(ctx, fn, attr, descend):
     downs = [w for w in whiles if any(isinstance(x, ast.Assign) and src(x.value).endswith(".under") for x in ast.walk(w.ast))]
     rev = V.call_nodes("reverse")
     st = V.stores("self." + attr)
-    ok = len(ups) == 1 and len(rev) == 1 and V.dominated(rev, ups) and bool(st) and V.dominated(st, rev)
+
+    def in_loop(n, w):
+        return id(n.ast) in {id(x) for x in ast.walk(w.ast)} and n.id != w.id
+    ok = len(ups) == 1 and bool(st)
+    lst = None
+    if ok:
+        app = [(n, c) for n, c in V.attr_calls(("append", "insert")) if in_loop(n, ups[0])]
+        ok = len(app) == 1
+        if ok:
+            n0, c0 = app[0]
+            lst = dotted(c0.func.value)
+            if c0.func.attr == "append":        # bottom-up collection, reversed once afterwards
+                ok = len(rev) == 1 and V.dominated(rev, ups) and V.dominated(st, rev) and dotted(rev[0].ast.value.func.value) == lst \
+                    if isinstance(rev[0].ast, ast.Expr) and isinstance(rev[0].ast.value, ast.Call) else False
+            else:                               # each frame put in front: top ends up left-most, nothing to reverse
+                ok = not rev and len(c0.args) == 2 and isinstance(c0.args[0], ast.Constant) and c0.args[0].value == 0
+            ok = ok and V.dominated(st, ups)
     # climbing starts from self
     starts = [n for n in cfg.nodes if isinstance(n.ast, ast.Assign) and dotted(n.ast.value) == "self"
               and isinstance(n.ast.targets[0], ast.Name)]
     ok = ok and bool(starts) and V.dominated(ups, starts)
+    after_up = rev if rev else ups
     if descend:
-        ok = ok and len(downs) == 1 and V.dominated(downs, rev) and V.dominated(st, downs)
+        ok = ok and len(downs) == 1 and V.dominated(st, downs)
         seed = [n for n in cfg.nodes if isinstance(n.ast, ast.Assign) and src(n.ast.value) == "self.under"]
         ok = ok and bool(seed) and V.dominated(downs, seed)
+        if ok:
+            dapp = [(n, c) for n, c in V.attr_calls(("append",)) if in_loop(n, downs[0])]
+            ok = len(dapp) == 1
+            if ok:
+                dl = dotted(dapp[0][1].func.value)
+                if dl == lst:                   # appended directly below the climbed part
+                    ok = V.dominated(downs, after_up)
+                else:                           # collected separately, then appended as a whole
+                    ext = [n for n, c in V.attr_calls(("extend",)) if dotted(c.func.value) == lst and c.args and
+                           dotted(c.args[0]) == dl]
+                    ok = len(ext) == 1 and V.dominated(ext, after_up) and V.dominated(ext, downs) and V.dominated(st, ext)
     else:
         ok = ok and not downs
-    # the list appended to is the one stored
+    # the stored list is the traced one
+    ok = ok and all(isinstance(s_.ast, ast.Assign) and dotted(s_.ast.value) == lst for s_ in st)
     ctx.check(ok, "T9-outline", fn, "%s: climb .over from self, reverse%s, store self.%s"
               % (fn.name, ", descend primary .under" if descend else "", attr),
               "the %s must be the chain from the top of the hierarchy down to the frame%s"
